@@ -51,11 +51,16 @@ struct IWorld {
   virtual void exec(int ti, const Op& op) = 0;
   virtual void thread_end(int ti) = 0;
   virtual void teardown(int k, int nteardown) = 0;
+  virtual void (*dtor_unlink_hook())(int64_t) = 0;
 };
 
 inline thread_local int64_t g_cur_deleter = -1; // deleter id in effect while a node is being deleted
 inline bool g_teardown = false;
 inline bool g_nested = false;                   // this run: some nodes own a child that their destructor retires
+// nested unlink (half of the nested-retirement runs): the destructor of every third node also empties a shared cell and
+// retires the object it unlinked - a destructor that uses the reclaimer like any other client code (acquire, CAS,
+// reclaim), wherever the reclaimer happens to run it
+inline void (*g_dtor_unlink)(int64_t id) = nullptr;
 inline thread_local bool g_direct_delete = false; // the harness deletes a node that never became reachable
 inline bool g_published[8192];
 
@@ -88,6 +93,7 @@ struct NodeT<R, false> : R::template enable_concurrent_ptr<NodeT<R, false>, 1, D
       obj_died(id, g_cur_deleter);
     }
     if (child) retire_child<R, false>(child);
+    if (g_dtor_unlink && id < FLUSH_ID_BASE && id % 3 == 1 && !g_teardown && !g_direct_delete) g_dtor_unlink(id);
     pat[0] = pat[1] = 0xdeaddeaddeaddeadULL;
   }
 };
@@ -117,6 +123,7 @@ struct NodeT<R, true> : R::template enable_concurrent_ptr<NodeT<R, true>, 1> {
       obj_died(id, -1);
     }
     if (child) retire_child<R, true>(child);
+    if (g_dtor_unlink && id < FLUSH_ID_BASE && id % 3 == 1 && !g_teardown && !g_direct_delete) g_dtor_unlink(id);
     pat[0] = pat[1] = 0xdeaddeaddeaddeadULL;
     mem_dead(pat, sizeof(pat)); // type-stable memory: the payload must not be touched any more
   }
@@ -167,7 +174,24 @@ struct World : IWorld {
   TState* ts[MAXT] = {};
   bool c18;
 
-  World(const Traits& t, bool c18mode) : tr(t), c18(c18mode) {}
+  static inline World* self = nullptr;
+  World(const Traits& t, bool c18mode) : tr(t), c18(c18mode) { self = this; }
+  ~World() { self = nullptr; }
+  static void dtor_unlink(int64_t id) {
+    World* w = self;
+    // a static hazard pointer / era pool may be exhausted by the guards of the operation during which the reclaimer
+    // runs this destructor; an exception cannot leave a destructor
+    if (!w || (w->tr.hp_like && !w->tr.dynamic)) return;
+    int a = (int)(id % NCELLS);
+    Guard tmp;
+    tmp.acquire(w->cells[a], std::memory_order_acquire);
+    if (!tmp.get()) return;
+    MPtr cur = tmp;
+    if (w->cells[a].compare_exchange_strong(cur, MPtr(), std::memory_order_acq_rel, std::memory_order_relaxed)) {
+      probe(3);
+      w->retire(tmp, tmp.get()->id);
+    }
+  }
 
   TState& state(int ti) {
     if (!ts[ti]) {
@@ -568,6 +592,7 @@ struct World : IWorld {
     delete dummy;
   }
 
+  void (*dtor_unlink_hook())(int64_t) override { return &World::dtor_unlink; }
   void teardown(int k, int n) override {
     if (k == 0) {
       // retire what is still reachable (documented protocol), with this thread's guards only
@@ -600,7 +625,7 @@ private:
   IWorld* w = nullptr;
   int nteardown = 2;
   int cur_cfg = 0;
-  bool mode_c17 = false, mode_c02 = false;
+  bool mode_c17 = false, mode_c02 = false, nested_unlink_run = false;
 
 public:
   ReclHarness(const char* n, const Cfg* c, int nc) : nm(n), cfgs(c), ncfg(nc) {}
@@ -716,7 +741,8 @@ public:
     bool plain = !c18 && !c17 && !c02 && !c15;
     // nested retirement (a quarter of the C02 / C17 / plain programs): every third node owns a child
     bool nested = (c02 || c17 || plain) && g.rng.chance(25);
-    p.params = {c18 ? 1 : 0, c17 ? 1 : 0, c02 ? 1 : 0, nested ? 1 : 0}; // C01 / C03 / C16 programs: exits and adoption matter there too
+    bool nested_unlink = nested && g.rng.chance(50);
+    p.params = {c18 ? 1 : 0, c17 ? 1 : 0, c02 ? 1 : 0, nested ? 1 : 0, nested_unlink ? 1 : 0}; // C01 / C03 / C16 programs: exits and adoption matter there too
     if (c17 || (c02 && g.rng.chance(60)) || (plain && g.rng.chance(35))) {
       // generations: G x up to 3 overlapping threads; later threads start while earlier ones exit
       int G = c17 ? (g.rng.chance(50) ? 3 : 6) : 3;
@@ -778,11 +804,14 @@ public:
     mode_c17 = p.params.size() > 1 && p.params[1];
     mode_c02 = p.params.size() > 2 && p.params[2];
     g_nested = p.params.size() > 3 && p.params[3];
+    g_dtor_unlink = nullptr;
+    nested_unlink_run = p.params.size() > 4 && p.params[4];
     nteardown = g_nested ? 4 : 2; // a child retired by the last flush needs a flush of its own
     memset(g_published, 0, sizeof g_published);
     g_teardown = false;
     g_cur_deleter = -1;
     w = cfgs[p.config].make(cfgs[p.config].tr, c18);
+    if (nested_unlink_run) g_dtor_unlink = w->dtor_unlink_hook();
   }
   void exec(int ti, const Op& op) override { w->exec(ti, op); }
   void thread_end(int ti) override { w->thread_end(ti); }
@@ -868,6 +897,7 @@ public:
       else if ((o.kind == OP_PUBLISH || o.kind == OP_UNLINK || o.kind == OP_REMARK) && o.status == 1) ops.push_back(i);
     }
     c.state_hash = sh;
+    if (c.prog.params.size() > 4 && c.prog.params[4]) return; // nested unlink: destructors change cells outside recorded operations
     RegModel m;
     RegModel::State init{};
     if (!c.hist.weak) {
